@@ -10,20 +10,22 @@ Inductive sexp :=
 | SList (l : list sexp).
 
 (* ---- reading ---- *)
+(* linear-time reversal (List.rev is quadratic, which matters for 100 KB atoms) *)
+Definition frev {A} (l : list A) : list A := rev_append l [].
 Definition push_atom (cur : str) (top : list sexp) : list sexp :=
-  match cur with [] => top | _ => Atom (rev cur) :: top end.
+  match cur with [] => top | _ => Atom (frev cur) :: top end.
 
 (* cur: current atom reversed; top: current list reversed; stack: enclosing lists reversed *)
 Fixpoint parse_sexp (s : str) (cur : str) (top : list sexp) (stack : list (list sexp)) : option (list sexp) :=
   match s with
-  | [] => match stack with [] => Some (rev (push_atom cur top)) | _ => None end
+  | [] => match stack with [] => Some (frev (push_atom cur top)) | _ => None end
   | c :: s' =>
     if beq c x20 then parse_sexp s' [] (push_atom cur top) stack
     else if beq c x28 then parse_sexp s' [] [] (push_atom cur top :: stack)
     else if beq c x29 then
       match stack with
       | [] => None
-      | up :: stack' => parse_sexp s' [] (SList (rev (push_atom cur top)) :: up) stack'
+      | up :: stack' => parse_sexp s' [] (SList (frev (push_atom cur top)) :: up) stack'
       end
     else parse_sexp s' (c :: cur) top stack
   end.
